@@ -13,7 +13,7 @@
 (* (Abandon - TLC explores both, later events decide).                         *)
 (*                                                                             *)
 (*   event            action                                                   *)
-(*   call / ret       StartCall / Return                                       *)
+(*   call / ret       StartCallAt / Return                                     *)
 (*   open             ConnectAccepted(id)      connect_refused  ConnectRefused *)
 (*   connect_stall    ConnectStall                                             *)
 (*   rx (command)     no step; the command must be the one frame position 0    *)
@@ -70,7 +70,7 @@ TConstructed == /\ Is("constructed") /\ Step /\ phase \in {"idle", "between"} /\
                 /\ UNCHANGED <<active, calls, streams, attempt, phase, pos, tainted, closed, dirty, tmo, faults, result, usedCmd>>
                 /\ UNCHANGED <<cfg, sc, op, cause, late>>
 
-TCall == Is("call") /\ Step /\ Ev.t = now /\ StartCall /\ op' = Ev.op /\ UNCHANGED <<cfg, sc, cause, late>>
+TCall == Is("call") /\ Step /\ StartCallAt(Ev.t) /\ op' = Ev.op /\ UNCHANGED <<cfg, sc, cause, late>>
 TRet == Is("ret") /\ Step /\ Ev.t = now /\ Return /\ op' = "" /\ UNCHANGED <<cfg, sc, cause, late>>
 
 (* ---- silent client steps, taken only when the next event needs them ---- *)
